@@ -46,8 +46,16 @@ BIG = 1 << 16            # above: content = a 4093-byte random pattern repeated 
 PATTERN = 4093
 
 
-def hash_content(length, salt):
-    """-> (bytes, driver content spec)"""
+def hash_content(length, salt, kind="random"):
+    """-> (bytes, driver content spec).  kinds: random bytes; zeros (a sparse file: every chunk equal to the previous one);
+    text (lines ending in CR LF / LF, trailing newline and blanks: what a text-mode read or a strip() would change)"""
+    if kind == "zeros":
+        return b"\0" * length, {"hex": "00", "repeat": length}
+    if kind == "text":
+        unit = b"line one\r\nline two \n\ttab\r\n\n\x1a\xc3\xa9 \n"
+        rep = length // len(unit)
+        tail = (b"\r\n \n" * len(unit))[:length - rep * len(unit)]
+        return unit * rep + tail, {"hex": unit.hex(), "repeat": rep, "tail_hex": tail.hex()}
     if length <= BIG:
         data = random.Random("h-%d-%d" % (length, salt)).randbytes(length)
         return data, {"hex": data.hex()}
@@ -404,6 +412,14 @@ class C16(Prop):
         if tier == "quick":
             for alg in ("sha224", "sha384", "sha512"):
                 yield {"op": "hash", "args": {"alg": alg, "length": chunk + 1, "salt": 2, "chunking": {"mode": "code"}}}
+        # sparse files (consecutive chunks identical) and text-like files (CR LF, trailing newline/blank, ^Z) through the code's loop and others
+        for i, alg in enumerate(MODELLED if tier != "quick" else ["md5", "sha256", "sha512"]):
+            yield {"op": "hash", "args": {"alg": alg, "length": [2 * chunk, 3 * chunk + 5, 2 * chunk + 1][i % 3], "salt": 0, "kind": "zeros", "chunking": {"mode": "code"}}}
+        for alg in MODELLED:
+            for length in (1, 2, 3, 41, 64, 130, 1000):
+                yield {"op": "hash", "args": {"alg": alg, "length": length, "salt": 0, "kind": "text", "chunking": {"mode": "code"}}}
+            yield {"op": "hash", "args": {"alg": alg, "length": rng.randrange(100, 3000), "salt": 0, "kind": rng.choice(["text", "zeros"]), "chunking": chunking(100)}}
+        yield {"op": "hash", "args": {"alg": "sha1", "length": chunk + 2, "salt": 0, "kind": "text", "chunking": {"mode": "code"}}}
         # the same name in other letter cases (hashlib.new / OpenSSL accept them)
         for alg in ("SHA256", "Md5", "SHA1", "Sha512"):
             if self.algo_ok(alg):
@@ -459,7 +475,7 @@ class C16(Prop):
                 shutil.rmtree(d, ignore_errors=True)
             return {"rounds": rounds, "digest": rounds[0]["digest"], "expected": rounds[0]["expected"], "reads": rounds[0]["reads"]}
         if op == "hash":
-            data, _ = hash_content(a["length"], a["salt"])
+            data, _ = hash_content(a["length"], a["salt"], a.get("kind", "random"))
             one = hashlib.new(a["alg"], data).hexdigest()
             h = hashlib.new(a["alg"])
             n_upd = feed(h, data, a["chunking"])
@@ -622,7 +638,7 @@ class C16(Prop):
         if op == "digest":
             return [{"op": "ck_read_trace", "args": {"size": rd["size"]}} for rd in self._last["rounds"]]
         if op == "hash":
-            _, spec = hash_content(a["length"], a["salt"])
+            _, spec = hash_content(a["length"], a["salt"], a.get("kind", "random"))
             return [{"op": "hash_digest", "args": dict(spec, alg=a["alg"], chunking=a["chunking"], oneshot=a["length"] <= BIG)}]
         if op == "add":
             r = self._last
@@ -849,6 +865,7 @@ class C16(Prop):
                       "hash padding: %s" % ("second block needed" if a["length"] % bs >= bs - bs // 8 else "fits"),
                       "hash updates: %s" % ("1" if r["updates"] == 1 else "2-9" if r["updates"] < 10 else "10+")):
                 dist[k] = dist.get(k, 0) + 1
+            dist["hash content:" + a.get("kind", "random")] = dist.get("hash content:" + a.get("kind", "random"), 0) + 1
             if a["length"] in BOUNDARY:
                 dist.setdefault("hash boundary lengths", [])
                 if a["length"] not in dist["hash boundary lengths"]:
